@@ -18,7 +18,7 @@ def T(module, *names, partial=False):
           "Kanzi.Properties.C12_ans1": "Kanzi.C12", "Kanzi.Properties.C12_cm": "Kanzi.C12", "Kanzi.Properties.C13_srt": "Kanzi.C13", "Kanzi.Properties.C01_blockgen": "Kanzi.C01gen",
           "Kanzi.Properties.C19_paths": "Kanzi.C19", "Kanzi.Properties.C13_alias": "Kanzi.C13", "Kanzi.Properties.C13_lzp": "Kanzi.C13", "Kanzi.Properties.C13_fsd": "Kanzi.C13", "Kanzi.Properties.C12_binary": "Kanzi.C12", "Kanzi.Properties.C12_fpaq": "Kanzi.C12",
           "Kanzi.Properties.C12_cm_codec": "Kanzi.C12", "Kanzi.Properties.C13_lz": "Kanzi.C13", "Kanzi.Properties.C13_lz_consts": "Kanzi.ConstsTie",
-          "Kanzi.Properties.C12_tpaq": "Kanzi.C12", "Kanzi.Properties.C12_tpaq_codec": "Kanzi.C12", "Kanzi.Properties.C12_huffman": "Kanzi.C12", "Kanzi.Properties.C13_utf": "Kanzi.C13"}[module]
+          "Kanzi.Properties.C12_tpaq": "Kanzi.C12", "Kanzi.Properties.C12_tpaq_codec": "Kanzi.C12", "Kanzi.Properties.C12_huffman": "Kanzi.C12", "Kanzi.Properties.C13_utf": "Kanzi.C13", "Kanzi.Properties.C13_bwts": "Kanzi.C13", "Kanzi.Properties.C01_blockgen2": "Kanzi.C01gen"}[module]
     return [{"module": module, "name": n if n.startswith("Kanzi.") else ns + "." + n, "partial": partial or n.endswith("_partial")} for n in names]
 
 
@@ -71,6 +71,8 @@ LZ = {"name": "lz", "kmodel": "lz", "timeout": 7200}
 TPAQPRED = {"name": "tpaqpred", "kmodel": "tpaqpred", "timeout": 7200}
 HUFFMAN = {"name": "huffman", "kmodel": "huffman", "timeout": 7200}
 UTF = {"name": "utf", "kmodel": "utf", "timeout": 7200}
+BWTS = {"name": "bwts", "kmodel": "bwts", "timeout": 7200}
+IMAGEGEN2 = {"name": "imagegen2", "kmodel": "imagegen2", "timeout": 7200}
 LZP = {"name": "lzp", "kmodel": "lzp", "timeout": 3600}
 FSD = {"name": "fsd", "kmodel": "fsd", "timeout": 3600}
 SRT = {"name": "srt", "kmodel": "srt", "timeout": 3600}
@@ -102,9 +104,13 @@ PROPS["C01"] = {
                     "C01_small_dst_independent", "C01_gen_none_encode", "C01_gen_none_decode", "C01_gen_none_image", "C01_stream_image_gen", "C01_stream_image_small_none", "C01_ans0_block_size",
                     "C01_stream_image_small_ans0", "C01_stream_image_gen_fast", "C01_gen_end_to_end", "C01_gen_end_to_end_ans0")
                 + T("Kanzi.Properties.C01_blockgen", "C01_stream_image_small_ans0_partial", "C01_gen_end_to_end_ans0_partial", partial=True)
+                + T("Kanzi.Properties.C01_blockgen2", "C01_grow_spelled_out", "C01_chain_fits_nonexpanding", "C01_chain_fits_srt", "C01_codec_chain", "C01_codec_chain_nonexpanding", "C01_codec_chain_ent",
+                    "C01_chain_components", "C01_chain_no_fault", "C01_codec_of_header2", "C01_level0", "C01_level1", "C01_level2", "C01_levels_modelled", "C01_levels_out_of_reach", "C01_chain_expansion_limit",
+                    "C01_stream_image_chain_none")
+                + T("Kanzi.Properties.C01_blockgen2", "C01_codec_chain_fpaq_partial", "C01_codec_chain_cm_partial", "C01_stream_image_chain_partial", partial=True)
                 + T(MCT, "io_consts", "kanzi_consts", "consts_nonvacuous") + T(MBO, "writeHeader_layout", "readHeader_layout", "frame_layout", "block_prologue_layout"),
-    "streams": [SW, SR, JOBS, IMAGE, IMAGEGEN, RT, RTBIG],
-    "level_text": "PROOF of the stream layer under assumption H_codec, plus search. Proved for all data, all partitions into Write calls, all job counts on both sides, all size-hint values, all read sizes: Write/Close succeed, the blocks are chunks(B,data), the framed stream parses back to them, and the reader returns exactly data then end-of-stream (C01_roundtrip = C04_writer_blocks + C10_stream_layout + C05_reader_refines_spec); the transform sequence with any pattern of declined stages and both skip-flag layouts round-trips (C13_sequence*); NONE entropy proved (C12_none); for the NONE/NONE codec H_codec is PROVED incl. the copy-block branch and the three checksum widths (C01_codec_NONE) and the whole chain is closed at the byte level: the bytes the Writer model emits, for any partition/jobs/hint, parse back through header, framing and block decode to the data (C01_none_end_to_end), and that byte image is byte-identical to the real Writer's output (image stream). The per-block codec is now modelled GENERICALLY (Model.BlockGen: copy-block branch, the skipBlocks entropy test with the real magic-number and first-order-entropy code, mode byte, skip flags in the nibble or the extra byte, length field, checksum, entropy coder, inverse sequence): C01_block_roundtrip reduces H_codec to per-stage and per-entropy-codec laws, and it is discharged with NO remaining hypothesis for every chain of up to 8 transforms over NONE/ZRLT/MTFT/RANK with entropy NONE or ANS0 (C01_codec_small_none, C01_codec_small_ans0, C01_codec_of_header), up to the byte image of the whole stream (C01_gen_end_to_end, C01_gen_end_to_end_ans0 for block sizes <= 128 KiB; above that PARTIAL under the decidable hypothesis that the ANS0 payload fits the reader's frame bound); the imagegen stream compares that image byte for byte with the real Writer and the real Reader's verdict on damaged images. ASSUMED (H_codec) for the other transforms/entropy codecs: decode(encode(block)) = block - searched on the real code (rt/rtbig: every transform and entropy, chains up to 8, all data shapes, block sizes, jobs, hints, headerless).",
+    "streams": [SW, SR, JOBS, IMAGE, IMAGEGEN, IMAGEGEN2, RT, RTBIG],
+    "level_text": "PROOF of the stream layer under assumption H_codec, plus search. Proved for all data, all partitions into Write calls, all job counts on both sides, all size-hint values, all read sizes: Write/Close succeed, the blocks are chunks(B,data), the framed stream parses back to them, and the reader returns exactly data then end-of-stream (C01_roundtrip = C04_writer_blocks + C10_stream_layout + C05_reader_refines_spec); the transform sequence with any pattern of declined stages and both skip-flag layouts round-trips (C13_sequence*); NONE entropy proved (C12_none); for the NONE/NONE codec H_codec is PROVED incl. the copy-block branch and the three checksum widths (C01_codec_NONE) and the whole chain is closed at the byte level: the bytes the Writer model emits, for any partition/jobs/hint, parse back through header, framing and block decode to the data (C01_none_end_to_end), and that byte image is byte-identical to the real Writer's output (image stream). The per-block codec is now modelled GENERICALLY (Model.BlockGen: copy-block branch, the skipBlocks entropy test with the real magic-number and first-order-entropy code, mode byte, skip flags in the nibble or the extra byte, length field, checksum, entropy coder, inverse sequence): C01_block_roundtrip reduces H_codec to per-stage and per-entropy-codec laws, and it is discharged with NO remaining hypothesis for every chain of up to 8 transforms over NONE/ZRLT/MTFT/RANK with entropy NONE or ANS0 (C01_codec_small_none, C01_codec_small_ans0, C01_codec_of_header), up to the byte image of the whole stream (C01_gen_end_to_end, C01_gen_end_to_end_ans0 for block sizes <= 128 KiB; above that PARTIAL under the decidable hypothesis that the ANS0 payload fits the reader's frame bound); the imagegen stream compares that image byte for byte with the real Writer and the real Reader's verdict on damaged images. Second instantiation (Model.BlockGen2, data-type hint threaded through the chain as the real ctx does, the task's output-buffer length threaded per task): H_codec is a THEOREM for every chain of up to 8 stages over {NONE, ZRLT, MTFT, RANK, RLT, SRT, PACK, DNA, LZ, LZX, LZP, MM} with entropy {NONE, ANS0, ANS1, RANGE, HUFFMAN} (C01_codec_chain), hypothesis-free for chains without SRT and MM (C01_codec_chain_nonexpanding) and otherwise under the decidable side condition ChainFits = 'the stages cannot expand the block beyond the decoder's bound' - which is exactly the known finding F43 (C01_chain_expansion_limit proves the failing configuration); the CLI levels 0, 1, 2 are hypothesis-free corollaries tied to the regenerated level table (C01_level0/1/2, C01_levels_modelled); FPAQ / CM conditional on fits2; the imagegen2 stream reproduces the real Writer's bytes for whole streams over all these configurations (it exposed F44: RLT made the stream depend on the job count). ASSUMED (H_codec) for chains containing BWT, BWTS-forward, ROLZ/ROLZX, TEXT, UTF (proved, not yet instantiated), EXE: decode(encode(block)) = block - searched on the real code (rt/rtbig: every transform and entropy, chains up to 8, all data shapes, block sizes, jobs, hints, headerless).",
     "level_note": BASE_NOTE + "H_codec for 17 transforms and 8 entropy codecs is an assumption covered only by the rt/rtbig search; buffer-size sufficiency of the decoder for chained expanding transforms is searched, not proved.",
     "assumptions": ["H_codec: per-block decode(encode(b)) = b and consumes exactly the encoder's bits, for codecs other than NONE/ZRLT/SBRT/Null"],
 }
@@ -262,10 +268,12 @@ PROPS["C13"] = {
                 + T("Kanzi.Properties.C13_lz", "C13_lz_inverse_fuel_partial", partial=True)
                 + T("Kanzi.Properties.C13_lz_consts", "lz_consts")
                 + T("Kanzi.Properties.C13_utf", "C13_utf_pack", "C13_utf_sizes", "C13_utf", "C13_utf_shorter", "C13_utf_total", "C13_utf_fault_overlap", "C13_utf_bytes", "C13_utf_consts")
+                + T("Kanzi.Properties.C13_bwts", "C13_bwts_lyndon", "C13_bwts_inverse", "C13_bwts_bijective", "C13_bwts_total", "C13_bwts_len", "C13_bwts_pure", "C13_bwts_matrix", "C13_bwts_lex", "C13_bwts_omega",
+                    "C13_bwts_isLyndon", "C13_bwts_suffixArray", "C13_bwts_inverse_declines", "C13_bwts_forward_small")
                 + T("Kanzi.Properties.C13_lzp", "C13_lzp", "C13_lzp_sync", "C13_lzp_total", "C13_lzp_bytes", "C13_lzp_shorter")
                 + T("Kanzi.Properties.C13_fsd", "C13_fsd", "C13_fsd_total", "C13_fsd_bytes", "C13_fsd_any_choice", "C13_fsd_zigzag", "C13_fsd_zigzag_delta") + T(MCT, "transform_consts", "io_consts", "rlt_consts"),
-    "streams": [TRSMALL, RLT, SRT, ALIAS, LZ, LZP, FSD, UTF, TRDIRECT],
-    "level_text": "PARTIAL PROOF. Proved for all blocks: Null, ZRLT (output <= MaxEncodedLen, inverse restores), SBRT in every mode; the transform sequence for up to 8 stages and every pattern of declining stages (skip flags in the mode byte or the extra byte recover exactly; all-declined leaves the block; composed MaxEncodedLen bounds the output). Models tied by byte-identical outputs on tens of thousands of blocks. RLT is modelled completely (escape selection, DetectSimpleType, both early declines, 1/2/3-byte run lengths, pending byte, tail) and proved: accepted blocks are strictly shorter, fit MaxEncodedLen and are restored by Inverse into any destination >= the original length, and NEITHER direction can index out of range - Inverse on ARBITRARY input returns ok or a clean error (C13_rlt, C13_rlt_total, C13_rlt_shorter); byte-exact rlt stream (both defects F28/F29 are flagged on the pre-fix file). SRT is modelled completely (Shell sort of the symbols proved to be a sorting permutation, 1..5-byte varint header, rank coding): for every block below 2^31 bytes Forward never declines or faults, its output is at most len+1028 <= MaxEncodedLen bytes (len <= 2^30) and Inverse restores the block (C13_srt, C13_srt_len, C13_srt_size_sharp); Inverse cannot fault on a well-formed header (C13_srt_total_inverse_partial - PARTIAL: on malformed input it DOES index out of range, proved as C13_srt_inverse_faults_*; such faults are outside C13 and are recovered by the decoding task, see DESIGN §6 observations); byte-exact srt stream. The alias codec (PACK and DNA) is modelled completely (one-symbol, 2-bit and 4-bit packing, the digram path with its order-1 histogram, merge sort and alias map, every decline, the dataType write-back): accepted blocks are strictly shorter, fit MaxEncodedLen and are restored exactly for both variants and every hint; correctness holds for ANY injective alias map onto unused bytes (C13_alias_any_injective_map); Forward never faults, Inverse never faults on a Forward output, and on arbitrary input it faults exactly when the decidable predicate invSafe is false (C13_alias_total; those malformed-input faults are observations, recovered by the decoding task); byte-exact alias stream. LZP is modelled completely (uint32 context hash, 65536-entry position table, 254-step length coding, both copy branches): accepted blocks are restored by Inverse, and the encoder and decoder hash tables and contexts are proved equal at EVERY step (C13_lzp, C13_lzp_sync); Forward never faults; Inverse on arbitrary input returns data, a clean error or exactly one of two index faults whose conditions are proved (observations). MM (fixed-step delta codec) is modelled completely incl. the magic-number test, the three-window entropy sampling with the real log2 tables and the delta/xor choice: round trip for every (distance, mode) choice (C13_fsd_any_choice), accepted blocks fit and are restored (C13_fsd), and BOTH directions are total - Inverse cannot fault on any input (C13_fsd_total); zigzag tables proved mutually inverse. Byte-exact lzp and fsd streams. LZ / LZX (the LZ77 codec, bitstream version 6) is modelled completely - both 64-bit hash functions, hash table, lazy matching, repeat distances, token / length / distance coding in four sections, every decline; the decoder with its 16-byte overshooting copy loop - and proved: the 1/3/4-byte length coding is an inverse pair below 2^24+255 and wraps beyond (the cause of F31: C13_lz_lengths, C13_lz_lengths_wrap); the decoder is correct for EVERY valid token stream (C13_lz_format); every stream the encoder emits is a valid token stream denoting the block (C13_lz_forward_valid: no claim about match quality); hence Inverse(Forward b) = b, within MaxEncodedLen (C13_lz, C13_lz_bound); Forward never faults - incl. the never-grown token buffer, which is large enough only because both hashes are injective in the fifth byte (C13_lz_hash_fifth_byte) - and Inverse never faults on a Forward output (C13_lz_total); faults of Inverse on forged input are observations (the model is the exact no-panic predicate: C13_lz_inverse_fuel_partial). Byte-exact lz stream. UTF (code point aliasing) is modelled completely (validation tables, head / tail bytes, BOM test, 32768-symbol limit, ranking sort, both unpack variants) and proved after the repair F41: pack/unpack is lossless on every accepted sequence (C13_utf_pack), accepted blocks are strictly shorter and restored exactly for every hint (C13_utf), Forward never faults, Inverse never faults on a Forward output and its exact fault condition on forged input is a theorem (C13_utf_total); correctness holds for any injective ranking. NOT modelled: BWT/BWTS, ROLZ/ROLZX, TEXT, EXE (slices in progress) - searched directly on the real code (trdirect: every transform and the CLI chains, pipeline buffer sizes with canaries, input-intact checks, data-type hints, all data shapes).",
+    "streams": [TRSMALL, RLT, SRT, ALIAS, LZ, LZP, FSD, UTF, BWTS, TRDIRECT],
+    "level_text": "PARTIAL PROOF. Proved for all blocks: Null, ZRLT (output <= MaxEncodedLen, inverse restores), SBRT in every mode; the transform sequence for up to 8 stages and every pattern of declining stages (skip flags in the mode byte or the extra byte recover exactly; all-declined leaves the block; composed MaxEncodedLen bounds the output). Models tied by byte-identical outputs on tens of thousands of blocks. RLT is modelled completely (escape selection, DetectSimpleType, both early declines, 1/2/3-byte run lengths, pending byte, tail) and proved: accepted blocks are strictly shorter, fit MaxEncodedLen and are restored by Inverse into any destination >= the original length, and NEITHER direction can index out of range - Inverse on ARBITRARY input returns ok or a clean error (C13_rlt, C13_rlt_total, C13_rlt_shorter); byte-exact rlt stream (both defects F28/F29 are flagged on the pre-fix file). SRT is modelled completely (Shell sort of the symbols proved to be a sorting permutation, 1..5-byte varint header, rank coding): for every block below 2^31 bytes Forward never declines or faults, its output is at most len+1028 <= MaxEncodedLen bytes (len <= 2^30) and Inverse restores the block (C13_srt, C13_srt_len, C13_srt_size_sharp); Inverse cannot fault on a well-formed header (C13_srt_total_inverse_partial - PARTIAL: on malformed input it DOES index out of range, proved as C13_srt_inverse_faults_*; such faults are outside C13 and are recovered by the decoding task, see DESIGN §6 observations); byte-exact srt stream. The alias codec (PACK and DNA) is modelled completely (one-symbol, 2-bit and 4-bit packing, the digram path with its order-1 histogram, merge sort and alias map, every decline, the dataType write-back): accepted blocks are strictly shorter, fit MaxEncodedLen and are restored exactly for both variants and every hint; correctness holds for ANY injective alias map onto unused bytes (C13_alias_any_injective_map); Forward never faults, Inverse never faults on a Forward output, and on arbitrary input it faults exactly when the decidable predicate invSafe is false (C13_alias_total; those malformed-input faults are observations, recovered by the decoding task); byte-exact alias stream. LZP is modelled completely (uint32 context hash, 65536-entry position table, 254-step length coding, both copy branches): accepted blocks are restored by Inverse, and the encoder and decoder hash tables and contexts are proved equal at EVERY step (C13_lzp, C13_lzp_sync); Forward never faults; Inverse on arbitrary input returns data, a clean error or exactly one of two index faults whose conditions are proved (observations). MM (fixed-step delta codec) is modelled completely incl. the magic-number test, the three-window entropy sampling with the real log2 tables and the delta/xor choice: round trip for every (distance, mode) choice (C13_fsd_any_choice), accepted blocks fit and are restored (C13_fsd), and BOTH directions are total - Inverse cannot fault on any input (C13_fsd_total); zigzag tables proved mutually inverse. Byte-exact lzp and fsd streams. LZ / LZX (the LZ77 codec, bitstream version 6) is modelled completely - both 64-bit hash functions, hash table, lazy matching, repeat distances, token / length / distance coding in four sections, every decline; the decoder with its 16-byte overshooting copy loop - and proved: the 1/3/4-byte length coding is an inverse pair below 2^24+255 and wraps beyond (the cause of F31: C13_lz_lengths, C13_lz_lengths_wrap); the decoder is correct for EVERY valid token stream (C13_lz_format); every stream the encoder emits is a valid token stream denoting the block (C13_lz_forward_valid: no claim about match quality); hence Inverse(Forward b) = b, within MaxEncodedLen (C13_lz, C13_lz_bound); Forward never faults - incl. the never-grown token buffer, which is large enough only because both hashes are injective in the fifth byte (C13_lz_hash_fifth_byte) - and Inverse never faults on a Forward output (C13_lz_total); faults of Inverse on forged input are observations (the model is the exact no-panic predicate: C13_lz_inverse_fuel_partial). Byte-exact lz stream. UTF (code point aliasing) is modelled completely (validation tables, head / tail bytes, BOM test, 32768-symbol limit, ranking sort, both unpack variants) and proved after the repair F41: pack/unpack is lossless on every accepted sequence (C13_utf_pack), accepted blocks are strictly shorter and restored exactly for every hint (C13_utf), Forward never faults, Inverse never faults on a Forward output and its exact fault condition on forged input is a theorem (C13_utf_total); correctness holds for any injective ranking. BWTS (bijective BWT): the INVERSE is modelled completely and proved against the mathematical definition - Lyndon factorisation (existence and Chen-Fox-Lyndon uniqueness, C13_bwts_lyndon), rotations of the factors sorted by the order of infinite powers (C13_bwts_matrix), and the Gil-Scott/Kufleitner theorem in full: bwtsInverse (bwtsSpec s) = s for every block, the inverse is total on EVERY byte string and is a bijection (C13_bwts_inverse, C13_bwts_total, C13_bwts_bijective); the Forward (suffix sort by DivSufSort + Lyndon repair) is tied to the definition only by the bwts stream (real Forward = bwtsSpec = an independent naive Go reference, exhaustive small alphabets, Forward(Inverse x) = x on arbitrary strings), not by proof. NOT modelled: BWT, ROLZ/ROLZX, TEXT, EXE (slices in progress) - searched directly on the real code (trdirect: every transform and the CLI chains, pipeline buffer sizes with canaries, input-intact checks, data-type hints, all data shapes).",
     "level_note": BASE_NOTE + "'input left unmodified' is immediate in the value-level model and checked on the real buffers by the trdirect oracle.",
     "assumptions": [],
 }
